@@ -71,11 +71,14 @@ def TagOk (arrays : List DataArray) (t : Tag) : Prop :=
   UnitsOk t.units (refArrays arrays t.refs) ∧
   ∀ ft ∈ t.features, FeatureOk arrays ft
 
+/-- positions are linked, non-empty, with one entry per data dimension of every reference; extents are absent, or
+of the positions' shape, or an *empty* array (which nixio treats like absent extents: `if mtag.extents`) -/
 def MultiTagOk (arrays : List DataArray) (t : MultiTag) : Prop :=
   EntOk t.ent ∧
   (∃ ps n k, MtPosShape arrays t = some ps ∧ firstLen ps = some n ∧ n ≠ 0 ∧ secondDim ps = some k ∧
      ∀ da ∈ refArrays arrays t.refs, k = da.shape.length) ∧
-  (MtExtShape arrays t = none ∨ MtExtShape arrays t = MtPosShape arrays t) ∧
+  (MtExtShape arrays t = none ∨ MtExtShape arrays t = MtPosShape arrays t ∨
+     ∃ es, MtExtShape arrays t = some es ∧ firstLen es = some 0) ∧
   UnitsOk t.units (refArrays arrays t.refs) ∧
   ∀ ft ∈ t.features, FeatureOk arrays ft
 
@@ -192,22 +195,23 @@ theorem checkMultiTag_nil {arrays : List DataArray} {t : MultiTag} (h : MultiTag
   intro m hm
   rw [mem_checkMultiTag] at hm
   obtain ⟨he, ⟨ps, n, k, hps, hn, hn0, hk, hrk⟩, hext, hu, hf⟩ := h
-  have hes' : ∀ es, MtExtShape arrays t = some es → es = ps := by
-    intro es hes
-    rcases hext with h | h
+  have hes' : ∀ es, MtExtShape arrays t = some es → firstLen es ≠ some 0 → es = ps := by
+    intro es hes h0
+    rcases hext with h | h | ⟨es', hes', h0'⟩
     · rw [h] at hes; cases hes
     · rw [h, hps] at hes; cases hes; rfl
-  rcases hm with hm | ⟨-, h⟩ | ⟨-, es, hes, -, hne⟩ | ⟨-, hm⟩ | ⟨-, u, hu', hne, hsi⟩ | ⟨i, ft, hi, hm⟩
+    · rw [hes'] at hes; cases hes; exact absurd h0' h0
+  rcases hm with hm | ⟨-, h⟩ | ⟨-, -, es, hes, h0, hne⟩ | ⟨-, hm⟩ | ⟨-, u, hu', hne, hsi⟩ | ⟨i, ft, hi, hm⟩
   · rw [checkEntity_nil he] at hm; exact absurd hm (by simp)
   · rw [hps] at h
-    simp only [Option.bind_some, hn, Option.some.injEq] at h
+    simp only [reduceCtorEq, Option.bind_some, hn, Option.some.injEq, false_or] at h
     exact hn0 h
-  · rw [hes' es hes] at hne; exact hne hps
-  · rcases hm with ⟨-, da, hda, hne⟩ | ⟨-, es, hes, -, da, hda, hne⟩ | hm
+  · rw [hes' es hes h0] at hne; exact hne hps
+  · rcases hm with ⟨-, -, da, hda, hne⟩ | ⟨-, es, hes, h0, da, hda, hne⟩ | hm
     · rw [hps] at hne
       simp only [Option.bind_some, hk, ne_eq, Option.some.injEq] at hne
       exact hne (hrk da hda)
-    · rw [hes' es hes, hk] at hne
+    · rw [hes' es hes h0, hk] at hne
       exact hne (by rw [hrk da hda])
     · rw [refUnitMsgs_nil hu] at hm; exact absurd hm (by simp)
   · rw [hu.2.2 u hu' hne] at hsi; exact absurd hsi (by decide)
@@ -269,6 +273,11 @@ theorem tagEvents_nil {arrays : List DataArray} {t : Tag} (h : TagOk arrays t) :
   simp only [tagEvents, ctorEvents, he.1, if_true, List.nil_append]
   exact flatMap_nil_of fun ft hft => featureEvents_nil (hf ft hft)
 
+theorem shapeEvents_nil {b : Bool} {sh : List Nat} {n : Nat} (h : firstLen sh = some n) : shapeEvents b sh = [] := by
+  cases sh with
+  | nil => simp [firstLen] at h
+  | cons a r => cases r <;> simp [shapeEvents, firstLen, secondDim]
+
 theorem mtagEvents_nil {arrays : List DataArray} {t : MultiTag} (h : MultiTagOk arrays t) :
     mtagEvents arrays t = [] := by
   obtain ⟨he, ⟨ps, n, k, hps, hn, -, hk, -⟩, hext, -, hf⟩ := h
@@ -281,15 +290,18 @@ theorem mtagEvents_nil {arrays : List DataArray} {t : MultiTag} (h : MultiTagOk 
   | some pda =>
     have hpsh : pda.shape = ps := by simpa [hp] using hps
     have e1 : ∀ b, shapeEvents b pda.shape = [] := by
-      intro b; simp [shapeEvents, hpsh, hn, hk]
+      intro b; rw [hpsh]; exact shapeEvents_nil hn
     cases hx : (t.extents.bind fun k => arrays[k]?) with
     | none => simp [mtagEvents, ctorEvents, he.1, hp, hx, e1, hf']
     | some eda =>
-      have hesh : eda.shape = ps := by
-        rcases hext with h | h
+      have e2 : ∀ b, shapeEvents b eda.shape = [] := by
+        intro b
+        rcases hext with h | h | ⟨es, hes, h0⟩
         · simp [hx] at h
-        · simpa [hx, hp, hpsh] using h
-      have e2 : ∀ b, shapeEvents b eda.shape = [] := by intro b; simp [shapeEvents, hesh, hn, hk]
+        · have : eda.shape = ps := by simpa [hx, hp, hpsh] using h
+          rw [this]; exact shapeEvents_nil hn
+        · have : eda.shape = es := by simpa [hx] using hes
+          rw [this]; exact shapeEvents_nil h0
       simp [mtagEvents, ctorEvents, he.1, hp, hx, e1, e2, hf']
 
 end Nix.Validator.Lemmas
